@@ -332,6 +332,7 @@ func mintAPReqKey(m *Model, rng *RNG, c apCase, now time.Time) (messages.APReq, 
 	}
 	ap = messages.APReq{PVNO: 5, MsgType: 14, APOptions: types.NewKrbFlags(), Ticket: tkt, EncryptedAuthenticator: ea}
 	b, err := ap.Marshal()
+	lastMintedPlain = b
 	if err == nil && c.clearAppended {
 		// the EncTicketPart once more, in the clear, as a fifth element of the Ticket SEQUENCE (the decoder fills
 		// Ticket.DecryptedEncPart from it: nothing the service may ever rely on)
@@ -351,6 +352,10 @@ func mintAPReqKey(m *Model, rng *RNG, c apCase, now time.Time) (messages.APReq, 
 	}
 	return ap, b, err
 }
+
+// the AP-REQ minted last as it is without anything appended in the clear (what the appended cleartext must not
+// change the verdict on: the independent acceptor judges these octets)
+var lastMintedPlain []byte
 
 // the PAC of the AP-REQ minted last (for comparing what the service reports with what the PAC holds)
 var lastMintedPAC []byte
